@@ -34,6 +34,10 @@ type iterator struct {
 
 	lowerLevelIter Iterator // May be nil.
 
+	// numCursorsAtStart is the number of cursors the iterator started
+	// with, before any leading deletion was skipped over.
+	numCursorsAtStart int
+
 	closer io.Closer
 
 	iteratorOptions IteratorOptions
@@ -191,6 +195,8 @@ func (ss *segmentStack) startIterator(
 	// Heap-ify the cursors.
 
 	heap.Init(iter)
+
+	iter.numCursorsAtStart = len(iter.cursors)
 
 	if !iteratorOptions.IncludeDeletions {
 		entryEx, _, _, _ := iter.CurrentEx()
@@ -453,7 +459,11 @@ func (iter *iterator) Pop() interface{} {
 // when there's only a single segment, then the heap can be avoided by
 // using a simpler, faster iteratorSingle implementation.
 func (iter *iterator) optimize() (Iterator, error) {
-	if len(iter.cursors) != 1 {
+	// Only when there was a single cursor to begin with: a cursor that
+	// was exhausted while skipping a leading deletion still shadows
+	// entries of the remaining one, which a later SeekTo() backwards
+	// on the simpler iterator would wrongly bring back.
+	if len(iter.cursors) != 1 || iter.numCursorsAtStart != 1 {
 		return iter, nil
 	}
 
